@@ -842,6 +842,9 @@ impl<T> FastVec<T> {
         crate::zipora_verify_le!(self.len, self.cap);
 
         if src.is_empty() {
+            // The vector becomes a copy of `src` for every other length; an empty source
+            // must leave it empty as well (T: Copy, nothing to drop).
+            self.len = 0;
             return Ok(());
         }
 
